@@ -173,6 +173,39 @@ func runTrajectoryHook(sc *Scenario, env *Env, oc *OutputCfg, oracles []Oracle, 
 	if len(res.Violations) > 0 {
 		res.Status = "violation"
 	}
+	// real-disk slice: the same run once more with the shipped file writer, no hooks; the files must equal the simulated disk byte for byte
+	if sc.Idx%40 == 7 && out.Panic == "" && os.Getenv("VERIF_NO_REALDISK") == "" {
+		root2 := env.NewRoot()
+		if err := WriteFiles(root2, fs, env.ParamDir); err == nil {
+			if onRoot != nil {
+				onRoot(root2)
+			}
+			var hooks2 *hermes.VerifHooks
+			if sc.Bug != nil && !sc.Bug.Off {
+				hooks2 = &hermes.VerifHooks{Substeps: hooks.Substeps} // same sub-step schedule, nothing else
+				nb := res.Stats["bug.days"]
+				defer func() { res.Stats["bug.days"] = nb }()
+			}
+			out2 := env.RunSingle(root2, w.Args(extraArgs...), hooks2, nil)
+			if out2.Success == out.Success && out2.Panic == "" {
+				n := 0
+				for _, p := range disk.Paths() {
+					rel := strings.TrimPrefix(p, root)
+					b, err := os.ReadFile(root2 + rel)
+					if err != nil || string(b) != string(disk.Get(p).Data) {
+						res.Harness = fmt.Sprintf("simulated disk and real disk disagree on %s (real: %d bytes, err %v; simulated: %d bytes)", rel, len(b), err, len(disk.Get(p).Data))
+						break
+					}
+					n++
+				}
+				res.add("realdisk.files-compared", float64(n))
+				res.add("realdisk.runs", 1)
+			} else if out2.Panic == "" {
+				res.Harness = fmt.Sprintf("run outcome differs between simulated disk (%v %s) and real disk (%v %s)", out.Success, out.Err, out2.Success, strings.ReplaceAll(out2.Err, root2, "<root>"))
+			}
+		}
+		os.RemoveAll(root2)
+	}
 	res.WallMS = nowMS(t0)
 	res.Hash = fmt.Sprintf("%016x", hashWorld(w, sc.Bug))
 	res.Digest = disk.Digest() + "|" + out.Err
